@@ -385,7 +385,7 @@ def run_mypy(root: str, srcs: list[str], n: int, cache: str, *, sched: str | Non
     env.pop("C07_TRACE", None)
     env.pop("C07_SEED", None)
     env.pop("MYPY_NUM_WORKERS", None)
-    for kk in ("C07_LONG_SLEEP", "C07_SQLITE_BUSY_MS"):
+    for kk in ("C07_LONG_SLEEP", "C07_SQLITE_BUSY_MS", "C07_KILL_AT"):
         env.pop(kk, None)
     if trace is not None:
         env["C07_TRACE"] = trace
@@ -1043,6 +1043,48 @@ def stage_B(ctx: vlib.Ctx, work: str) -> list[dict[str, Any]]:
 
 
 # ------------------------------------------------------------------------------------------------
+# S (worker failure): a worker is killed (shim: os._exit at the start of a chosen module's implementation phase).
+# Properties.worker_failure_never_yields_partial_result on the implementation: the build must report the failure (exit
+# status 2) -- or, when the kill point is not reached, equal the sequential build; never exit 0/1 with other diagnostics.
+
+def stage_K(ctx: vlib.Ctx, work: str) -> None:
+    nk = int(os.environ.get("C07_NKILL", ctx.n(2, 6)))
+    stats = {"runs": 0, "killed": 0, "status_2": 0}
+
+    def one(k: int) -> dict[str, Any]:
+        rng = vlib.Rng(ctx.seed, f"c07kill{k}")
+        p = gen_program(ctx.seed, 300 + k)
+        victim = rng.choice(p.mods)
+        root = os.path.join(work, f"kill{k}", "t")
+        write_tree(root, p.files)
+        seq = run_mypy(root, p.srcs, 0, os.path.join(work, f"kill{k}", "c-seq"))
+        nn = [2, 3, 1][k % 3]
+        tr = os.path.join(work, f"kill{k}", "trace.jsonl")
+        par = run_mypy(root, p.srcs, nn, os.path.join(work, f"kill{k}", "c-par"), sched=f"k{ctx.seed}-{k}", trace=tr,
+                       knobs={"C07_KILL_AT": victim})
+        killed = any(e["ev"] == "killed" for e in load_trace(tr))
+        if not os.environ.get("C07_KEEP"):
+            shutil.rmtree(os.path.join(work, f"kill{k}"), ignore_errors=True)
+        return {"p": p, "n": nn, "victim": victim, "seq": seq, "par": par, "killed": killed}
+
+    with ThreadPoolExecutor(max_workers=4) as ex:
+        recs = list(ex.map(one, range(nk)))
+    for r in recs:
+        stats["runs"] += 1
+        stats["killed"] += r["killed"]
+        stats["status_2"] += r["par"].status == 2
+        par, seq = r["par"], r["seq"]
+        ok = (par.status == 2 and not par.timed_out) if r["killed"] else same(par, seq)
+        if not ok:
+            ctx.violation(f"worker-killed:{r['p'].name}/n{r['n']}/{r['victim']}",
+                          f"worker killed at the implementation phase of {r['victim']} (-n {r['n']}): exit status {par.status}"
+                          + (" (run did not terminate)" if par.timed_out else "") + " instead of a reported failure (2)",
+                          {"kind": "kill", "program": r["p"].to_json(), "n": r["n"], "victim": r["victim"], "diff": diff_txt(par, seq)})
+    ctx.cov["S_worker_killed"] = stats
+    ctx.add("evaluations", stats["runs"])
+
+
+# ------------------------------------------------------------------------------------------------
 # entry points
 
 def run(ctx: vlib.Ctx) -> None:
@@ -1077,6 +1119,8 @@ def run(ctx: vlib.Ctx) -> None:
         flags = t07.extract()
         t07.generate()
         ctx.cov["T_protocol"] = flags
+        if not (flags["abort_on_blocker"] and flags["abort_on_lost_worker"]):
+            ctx.log("T: the coordinator no longer aborts on a blocker reply / lost worker as Blocker.v models")
         if not (flags["pm_iface"] and flags["pm_impl"]):
             ctx.log("T: the source no longer commits each module at the end of the per-module loops: "
                     "Properties.lock_released_per_module_refuted applies (current_code_commits_per_module will not check)")
@@ -1091,6 +1135,7 @@ def run(ctx: vlib.Ctx) -> None:
     try:
         traces = stage_S(ctx, work)
         traces += stage_B(ctx, work)
+        stage_K(ctx, work)
         stage_C(ctx, traces)
         nontriv = sum(1 for n in ctx.cov.get("S_reference_diagnostic_files", []) if n >= 2)
         ctx.cov["distinct_nontrivial"] = nontriv * int(os.environ.get("C07_PER", ctx.n(3, 5)))
